@@ -73,6 +73,20 @@ class Endpoint:
             fw.settle()
         self.up = True
         self.lost_at = None
+        self.synclost = False
+        if cfg.get("syncLoss"):
+            # an in-process transport: dropping the connection reports the loss before the call returns
+            ep = self
+            for nm, clean in (("loseConnection", True), ("abortConnection", False), ("close", True), ("abort", False)):
+                if hasattr(self.t, nm):
+                    def w(orig=getattr(self.t, nm), clean=clean):
+                        orig()
+                        if ep.up:
+                            ep.up = False
+                            ep.synclost = True
+                            ep.lost_at = len(ep.log)
+                            fw.lose(ep.p, clean=clean)
+                    setattr(self.t, nm, w)
         self.peer_closed = False
         self.dac = False
         self.late = False
@@ -94,14 +108,16 @@ class Endpoint:
             self.counts[k] += 1
             if k == "data" and self.counts["close"] > 0:
                 self.dac = True                      # a data frame after a close frame in the byte stream
-            if any(e[0] == "onClose" for e in self.log):
-                self.late = True                     # something written after the close notification
             if op == 8:
                 self.last_cf = list(f["payload"])
 
     def obs(self):
         p = self.p
         self.scan_writes()
+        # something written after the close notification (by position in the shared log, not by when it is looked at)
+        oc = [i for i, e in enumerate(self.log) if e[0] == "onClose"]
+        if oc and any(e[0] == "write" for e in self.log[oc[0] + 1:]):
+            self.late = True
         drop = ""
         for e in self.log[:self.lost_at]:          # transport calls made after connection_lost are not drops
             if e[0] == "drop" and not drop:
@@ -119,6 +135,8 @@ class Endpoint:
     def ev(self, name, **kw):
         fw.pump()                                    # flush the send queue (10 microsecond steps) within the event
         e = dict(ev=name, **kw)
+        e["synclost"] = bool(self.synclost)
+        self.synclost = False
         self.last_cf = []
         e["obs"] = self.obs()
         e["cf"] = self.last_cf
@@ -219,6 +237,14 @@ class Endpoint:
         elif name == "pviol":
             self.feed(self.frame(11, b""))          # reserved control opcode (a violating *data* frame would also count as traffic for the auto-ping restart)
             self.ev("pviol")
+        elif name == "lfail":
+            # the layer above (e.g. the WAMP transport) fails the connection with its own, possibly long, reason
+            reason = rng.choice(["short reason", "r" * 123, "r" * 124, "x" * 300, "é" * 62, "é" * 100, "\U0001d11e" * 40, "a" + "é" * 61])
+            try:
+                p._fail_connection(rng.choice([1002, 1011, 1009]), reason)
+            except Exception as e:  # noqa
+                self.log.append(("api-exc", "_fail_connection:" + type(e).__name__))
+            self.ev("lfail")
         elif name == "lost":
             self.up = False
             self.lost_at = len(self.log)
@@ -241,7 +267,8 @@ def gen_cfg(rng, profile):
         p = rng.choice([(1, 1, True), (2, 2, True), (1, 2, False), (5, 1, True), (2, 0, True), (1, 5, False)])
     else:
         p = rng.choice([(0, 0, True), (0, 0, True), (1, 1, True), (2, 1, False)])
-    return dict(role=rng.choice(["server", "client"]), failByDrop=rng.random() < 0.5, echo=rng.random() < 0.3,
+    return dict(syncLoss=(profile == "c05" and rng.random() < 0.2),
+                role=rng.choice(["server", "client"]), failByDrop=rng.random() < 0.5, echo=rng.random() < 0.3,
                 openTO=t[0], closeTO=t[1], dropTO=t[2], pingInt=p[0], pingTO=p[1], restart=p[2])
 
 
@@ -251,7 +278,7 @@ def scenario(rng, profile):
     fw.advance((1.0 - frac) % 1.0 + rng.choice([0.0, 0.5]))
     cfg = gen_cfg(rng, profile)
     ep = Endpoint(cfg, rng)
-    ep.trace.append(dict(ev="made", cfg=cfg, now=int(round(fw.now() * 2)), obs=ep.obs()))
+    ep.trace.append(dict(ev="made", cfg=cfg, now=int(round(fw.now() * 2)), obs=ep.obs(), synclost=False))
     n = rng.randint(3, 14 if profile == "c17" else 10)
     opened = False
     if rng.random() < 0.85:
@@ -267,6 +294,8 @@ def scenario(rng, profile):
             choices += ["adv"] * 4
         if st != "CONNECTING":
             choices += ["lclose", "lsend"]
+            if st in ("OPEN", "CLOSING") and rng.random() < 0.25:
+                choices += ["lfail"]
             if st == "OPEN" and rng.random() < 0.5:
                 choices += ["lburst"]
         if ep.up:
